@@ -91,9 +91,9 @@ func (api *API) encodeBasedOnType(
 		if valueBigInt, ok := valueI.(*big.Int); ok {
 			seri := serializer.NewSerializer()
 
-			return seri.WriteUint256(valueBigInt, func(err error) error {
+			return withTypeCode(ts)(seri.WriteUint256(valueBigInt, func(err error) error {
 				return ierrors.Wrap(err, "failed to write math big int to serializer")
-			}).Serialize()
+			}).Serialize())
 		}
 		elemValue := reflect.Indirect(value)
 		if !elemValue.IsValid() {
@@ -229,9 +229,9 @@ func (api *API) encodeStruct(
 	if valueTime, ok := valueI.(time.Time); ok {
 		seri := serializer.NewSerializer()
 
-		return seri.WriteTime(valueTime, func(err error) error {
+		return withTypeCode(ts)(seri.WriteTime(valueTime, func(err error) error {
 			return ierrors.Wrap(err, "failed to write time to serializer")
-		}).Serialize()
+		}).Serialize())
 	}
 	seri := serializer.NewSerializer()
 	if objectType := ts.ObjectType(); objectType != nil {
